@@ -178,3 +178,42 @@ fn verif_witness_search() {
   }
   println!("WITNESS-SEARCH: no violating history found ({checked} histories)");
 }
+
+
+// Bounded exploration for C05 (the language server does not crash on a formatting request): a formatting request for
+// every module — with and without errors, existing or not — straight after start-up and after every single edit.
+#[test]
+fn verif_witness_search_format_requests() {
+  let mut checked = 0usize;
+  let mut histories: Vec<Vec<Op>> = vec![Vec::new()];
+  for op in all_ops() {
+    histories.push(vec![op]);
+  }
+  for history in histories {
+    let mut heap = Heap::new();
+    let refs: Vec<ModuleReference> =
+      NAMES.iter().map(|n| heap.alloc_module_reference_from_string_vec(vec![n.to_string()])).collect();
+    let sources = [(0usize, 0usize), (1, 1), (2, 5), (3, 4)].iter().map(|(m, t)| (refs[*m], TEXTS[*t].to_string())).collect::<HashMap<_, _>>();
+    let mut state = ServerState::new(heap, true, sources);
+    for op in &history {
+      match *op {
+        Op::Update(m, t) => state.update(vec![(refs[m], TEXTS[t].to_string())]),
+        Op::Rename(m, n) => state.rename_module(vec![(refs[m], refs[n])]),
+        Op::Remove(m) => state.remove(&[refs[m]]),
+        _ => {}
+      }
+    }
+    for m in refs.iter() {
+      // a panic of the real code is the witness (reported by the runner)
+      if let Some(text) = crate::rewrite::format_entire_document(&state, m)
+        && text.is_empty()
+        && !state.get_errors(m).is_empty()
+      {
+        println!("WITNESS: formatting a module with errors produced an empty document");
+        return;
+      }
+      checked += 1;
+    }
+  }
+  println!("WITNESS-SEARCH: no violating history found ({checked} formatting requests)");
+}
